@@ -381,8 +381,9 @@ def readNotesWith (σf : List Snap → List Nat) (data : Str) (t0 : Option Rat) 
   let qs := dedupSnaps st.seen.reverse
   let ts ← offsetsWith defaultGrid (σf qs) tm qs
   let notes ← expandNotes (qs.zip ts) st
-  if !stopsSeen then .error .other     -- `stops.sorted(True)` on None : AttributeError
-  else .ok (tmR.map (fun b => (b.offset, b.bpm)), notes)
+  -- `stops` defaults to an empty list (repair D31): a text without a `#STOPS` tag reads like one with an empty tag
+  let _ := stopsSeen
+  .ok (tmR.map (fun b => (b.offset, b.bpm)), notes)
 
 /-- the executable instance: a stable ascending argsort -/
 def readNotes (data : Str) (t0 : Option Rat) (bcs : Option (List BcSnap)) (stopsSeen : Bool) :
@@ -588,13 +589,20 @@ def writeChartRows (c : WChart) : Except Err (List (List Str)) := do
   | none => if slots.isEmpty then .ok [] else .error .other     -- `range(None)` : TypeError, at the first measure
   | some keys => writeLoop keys slots (-1) (measuresSorted slots)
 
-/-- Python `round(x, 2)` on the exact value: nearest multiple of 1/100, ties to even -/
+/-- nearest integer, ties to even (the core of Python's `round`) -/
 def roundHalfEven (x : Rat) : Int :=
   let f : Int := x.floor
   let r : Rat := x - (f : Rat)
   if r < 1 / 2 then f else if r > 1 / 2 then f + 1 else if f % 2 = 0 then f else f + 1
 
-def round2 (q : Rat) : Rat := (roundHalfEven (q * 100) : Rat) / 100
+/-- Python `round(x, d)` on the exact value -/
+def roundDec (d : Nat) (q : Rat) : Rat := (roundHalfEven (q * ((10 ^ d : Nat) : Rat)) : Rat) / ((10 ^ d : Nat) : Rat)
+
+/-- what `_write_metadata` applies to the `#BPMS` beats (6 decimals since the repair D33) -/
+def round6 (q : Rat) : Rat := roundDec 6 q
+
+/-- the 2-decimal rounding the writer used before D33 (kept for the counterexample) -/
+def round2 (q : Rat) : Rat := roundDec 2 q
 
 structure WHeader where
   strs : List (Str × Str)       -- attribute ↦ value
@@ -616,7 +624,7 @@ deriving Repr, DecidableEq, Inhabited
 structure Written where
   strs : List (Str × Str)       -- tag ↦ value for the plain string lines, in file order
   offsetSec : Rat               -- `-RAConst.msec_to_sec(self.offset)`
-  bpms : List (Rat × Rat)       -- `round(float(beat), 2) = bpm` pairs
+  bpms : List (Rat × Rat)       -- `round(float(beat), 6) = bpm` pairs
   sampleStartSec : Rat
   sampleLengthSec : Rat
   selectable : Str              -- the text after "#SELECTABLE:" up to ';'
@@ -639,7 +647,7 @@ def write (h : WHeader) (charts : List WChart) : Except Err Written :=
       .ok (⟨c.chartType, c.description, c.difficulty, c.difficultyVal, c.groove, ms⟩ : WrittenChart)) charts
     .ok { strs := writeStringTags.map (fun ta => (ta.1, (h.strs.lookup ta.2).getD [])),
           offsetSec := -(h.offset / secToMsec),
-          bpms := (bb.zip c0.bpms).map (fun p => (round2 p.1, p.2.2)),
+          bpms := (bb.zip c0.bpms).map (fun p => (round6 p.1, p.2.2)),
           sampleStartSec := h.sampleStart / secToMsec,
           sampleLengthSec := h.sampleLength / secToMsec,
           selectable := if h.selectable then yesStr else noStr,
